@@ -118,18 +118,22 @@ add("C10",
 
 add("C11",
     "Coq theorems: for each of the five layout extensions the code model of map_object_id (byte-index slicing, to_tuples, lower_percent_escape, "
-    "padding, reversal, rfind on the lower-cased id) equals an independent Gallina transcription of the extension document for every validated "
-    "configuration, every id and every digest outside the recorded known classes; unmappable ids are refused, never mapped elsewhere; "
-    "StorageLayout::new accepts exactly the configurations the documents allow (outside the known classes), never panics for ANY form of "
+    "padding, reversal, the character-wise case-insensitive search of 0006, rfind on the lower-cased ASCII id of 0007) equals an independent "
+    "Gallina transcription of the extension document for every validated configuration, every id and every digest - no theorem carries a "
+    "known-class hypothesis any more; C11_0006_meaning: the path is the suffix of the ORIGINAL id after the right-most case-insensitive "
+    "occurrence of the delimiter; unmappable ids are refused, never mapped elsewhere; "
+    "StorageLayout::new accepts exactly the configurations the documents allow, never panics for ANY form of "
     "configuration, debug and release arithmetic agree, accepted 0003/0004 configurations obey the bounds (generated constant "
     "MAX_TUPLE_CONFIG), product and shortObjectRoot rules; helper laws "
-    "(percent-escape lowering, tuple splitting, 100-character truncation, prefix stripping). Witness lemmas for every known class. "
+    "(percent-escape lowering, tuple splitting, 100-character truncation, prefix stripping). "
     "Correspondence: StorageLayout::new / map_object_id of the real library on a configuration grid x id pool compared inside Coq with both models; "
     "system level: the directory an object occupies after commit, refusal of forbidden configurations with nothing written.",
-    "Trusted: Coq kernel, Model/Layout.v, Model/LayoutSpec.v (my reading of the five documents in /repo/resources/main/specs), hashlib digests, "
-    "Rust's Unicode case mapping (an input to both models). Known findings: case-fold index shift, 0007 defaults, array configs. 0003 zero "
-    "tuples, 0007 control characters, tuple bounds and shortObjectRoot - repaired by e1de1bb, 970818d, d1aca14, a91c61b - are must-pass "
-    "regression inputs.",
+    "Trusted: Coq kernel, Model/Layout.v, Model/LayoutSpec.v (my reading of the five documents in /repo/resources/main/specs; 'case-insensitive' "
+    "read as 'same lower-case form', per-character lower-casing - C11_case_readings_agree shows the candidate readings differ only for U+0130), "
+    "hashlib digests, Rust's Unicode case mapping (an input to both models; the four facts about it that the 0006/0007 theorems assume, "
+    "Layout.unicode_ok, are evaluated on every generated pair and a failing pair is reported). No known findings: all seven former classes - "
+    "0003 zero tuples, 0007 control characters, tuple bounds, shortObjectRoot, case-fold index (0006), 0007 defaults, array configurations - "
+    "were repaired by e1de1bb, 970818d, d1aca14, a91c61b, 91d5aeb, dec6d3f, 8478633 and are must-pass regression inputs.",
     "machine-checked proof in Coq (code model = document model, for all ids/configs) + function-level differential correspondence")
 
 add("C13",
@@ -194,17 +198,21 @@ add("C17",
 
 add("C19",
     "Coq theorems over Model/Listing.v (depth-first walk, object-root test, skipping of the storage root's own `extensions` directory, regex id "
-    "pre-filter, glob filter, lookup via layout path / scan / cache, purge_object with its guards and cache eviction): for every repository "
+    "pre-filter with JSON decoding of the captured string and raw-text fallback, glob filter, lookup via layout path / scan / cache, purge_object with its guards and cache eviction): for every repository "
     "tree list_objects returns each committed id exactly once (unconditional), walk = specification of object roots, a glob listing = the "
     "filtered list, no staged or extension object is listed, get_object finds an id iff it is committed, purged ids are not found (also "
     "through the SAME handle: the cache of a handle is sound along every history of open/get/purge/write), staged listing exact; the regex "
-    "text is pinned to the generated constant; witness lemmas inside each remaining class. Correspondence: "
+    "text is pinned to the generated constant; no theorem carries a classifier hypothesis: the id extracted from a rocfl-written inventory is "
+    "the id for ALL id bytes (quotes, backslashes, control characters), so by-id lookup without layout finds exactly that object and globs "
+    "test the decoded id. Correspondence: "
     "repositories built by the real library from hostile id sets under every layout and none; after every commit/purge the on-disk tree is "
     "abstracted to a model tree and list_objects(None|glob), list_staged_objects, get_object compared inside Coq. Search: listed ids = the "
     "driver's own record as a multiset.",
-    "Trusted: Coq kernel, Model/Listing.v, tree abstraction in checks/c19.py, globset behaviour on the generated subset. Known findings: id needing "
-    "a JSON escape, '?' matching one byte. Roots named `extensions` below the storage root, the stale id-path cache and occupied / nested layout "
-    "paths - repaired by 38fe584, 4564259, 01aa490 and its completion - are must-pass regression inputs; every purge is compared with the model and validate_repo must visit "
+    "Trusted: Coq kernel, Model/Listing.v, tree abstraction in checks/c19.py, globset behaviour on the generated subset. Known finding: '?' matching one byte "
+    "(external glob matcher). Ids needing a JSON escape (5a727de), roots named `extensions` below the storage root (38fe584), the stale id-path "
+    "cache (4564259) and occupied / nested layout paths (01aa490, 3802aa0) are must-pass regression inputs; hand-written inventory spellings "
+    "(escapes, surrogate pairs, strings that do not decode) are correspondence-checked only; the Gallina glob matcher treats LF as an ordinary "
+    "byte (globset dot_matches_new_line); every purge is compared with the model and validate_repo must visit "
     "exactly the committed objects.",
     "machine-checked proof in Coq (walk/lookup invariants over arbitrary trees) + correspondence on built repositories")
 
